@@ -17,7 +17,7 @@ EXPLANATION = (
     "result is a function of (*self, *sentence) only. R08.5: lifetime witness (a predicted sentence cannot outlive its predictor)."
 )
 THOROUGH_CONFIGS = [C.NO_TAG, C.MINIMAL]
-QUICK_CONFIGS = [C.NO_TAG]
+QUICK_CONFIGS = [C.NO_TAG, C.MINIMAL]
 NOT_DECIDED = ["equality of outputs as values", "behaviour of dependencies' unsafe code (daachorse) under concurrent shared access"]
 
 ALLOWED_PREDICT = {"text", "char_types", "str_to_char_pos", "char_to_str_pos", "boundaries"}
